@@ -450,7 +450,7 @@ BaseShapes(name) == CASE name = "wide" -> { <<97, 10>>, <<10>>, <<32, 32, 10>>, 
             [] name = "defs" -> { <<91, 97, 93, 58, 32, 47, 117, 10>>, <<91, 97, 93, 58, 10>>, <<47, 117, 10>>, <<34, 116, 34, 10>>, <<91, 97, 93, 58, 32, 47, 117, 32, 34, 116, 10>>, <<117, 34, 10>>, <<120, 10>>, <<62, 32, 91, 97, 93, 58, 32, 47, 117, 10>>, <<62, 32, 34, 116, 34, 10>>, <<45, 32, 91, 97, 93, 58, 10>>, <<32, 32, 47, 117, 10>>, <<61, 61, 61, 10>>, <<10>>, <<91, 97, 93, 58, 32, 47, 117, 32, 34, 116, 34, 32, 120, 10>>, <<91, 98, 93, 58, 32, 60, 118, 32, 119, 62, 32, 39, 116, 39, 10>>, <<32, 91, 97, 93, 58, 32, 47, 117, 10>>, <<32, 32, 91, 98, 93, 58, 32, 47, 118, 10>>, <<91, 97, 93, 58, 32, 47, 117, 32, 40, 116, 41, 10>>, <<62, 32, 120, 10>>, <<42, 42, 42, 10>>, <<91, 97, 93, 10>>, <<91, 97, 93, 58, 32, 60, 62, 10>>, <<91, 97, 10>>, <<98, 93, 58, 32, 47, 117, 10>>, <<91, 97, 93, 58, 32, 47, 117, 32, 39, 116, 39, 32, 32, 10>>, <<32, 32, 32, 39, 117, 39, 32, 121, 10>>, <<91, 97, 93, 58, 32, 47, 117, 92, 10>>, <<91, 93, 58, 32, 47, 117, 10>>, <<91, 97, 93, 32, 58, 32, 47, 117, 10>>, <<91, 97, 93, 58, 47, 117, 10>>, <<35, 32, 104, 10>>, <<91, 97, 93, 58, 32, 47, 117>>, <<32, 32, 32, 32, 91, 98, 93, 58, 32, 47, 118, 10>>, <<9, 91, 98, 93, 58, 32, 47, 118, 10>> }
             [] name = "html" -> { <<60, 100, 105, 118, 62, 10>>, <<60, 47, 100, 105, 118, 62, 10>>, <<60, 112, 114, 101, 62, 10>>, <<60, 47, 112, 114, 101, 62, 10>>, <<120, 60, 47, 112, 114, 101, 62, 10>>, <<60, 33, 45, 45, 32, 99, 10>>, <<99, 32, 45, 45, 62, 10>>, <<60, 33, 45, 45, 32, 99, 32, 45, 45, 62, 10>>, <<60, 63, 112, 10>>, <<63, 62, 10>>, <<60, 33, 68, 32, 120, 10>>, <<62, 10>>, <<60, 33, 91, 67, 68, 65, 84, 65, 91, 10>>, <<93, 93, 62, 10>>, <<60, 97, 32, 104, 114, 101, 102, 61, 34, 120, 34, 62, 10>>, <<60, 97, 32, 104, 114, 101, 102, 61, 34, 120, 34, 62, 32, 121, 10>>, <<60, 47, 97, 62, 10>>, <<60, 115, 112, 97, 110, 10>>, <<120, 10>>, <<10>>, <<62, 32, 60, 100, 105, 118, 62, 10>>, <<62, 32, 120, 10>>, <<45, 32, 60, 100, 105, 118, 62, 10>>, <<32, 32, 120, 10>>, <<32, 32, 32, 60, 100, 105, 118, 62, 10>>, <<32, 32, 32, 32, 60, 100, 105, 118, 62, 10>>, <<60, 68, 73, 86, 32, 97, 62, 10>>, <<60, 115, 99, 114, 105, 112, 116, 62, 10>>, <<60, 47, 115, 99, 114, 105, 112, 116, 62, 32, 122, 10>>, <<60, 97, 47, 62, 10>>, <<60, 97, 32, 98, 61, 99, 32, 100, 61, 39, 101, 39, 32, 102, 61, 34, 103, 34, 32, 47, 62, 10>>, <<60, 97, 32, 98, 61, 39, 62, 10>>, <<60, 112, 10>>, <<60, 112, 114, 101, 32, 120, 10>>, <<60, 104, 114, 47, 62, 10>>, <<60, 47, 112, 114, 101, 10>>, <<60, 97, 10>>, <<60, 97, 32, 98, 32, 61, 32, 99, 62, 10>>, <<60, 97, 32, 98, 61, 62, 10>>, <<60, 45, 97, 62, 10>>, <<60, 100, 105, 118>> }
             [] name = "fullA" -> { <<97, 32, 42, 98, 10>>, <<99, 42, 32, 100, 10>>, <<42, 101, 42, 10>>, <<97, 32, 32, 10>>, <<97, 92, 10>>, <<32, 98, 10>>, <<97, 32, 10>>, <<42, 42, 102, 10>>, <<42, 10>>, <<95, 97, 10>>, <<95, 32, 98, 10>>, <<62, 32, 97, 32, 42, 98, 10>>, <<62, 32, 99, 42, 32, 100, 10>>, <<62, 32, 42, 101, 42, 10>>, <<62, 32, 97, 32, 32, 10>>, <<62, 32, 97, 92, 10>>, <<62, 32, 32, 98, 10>>, <<62, 32, 97, 32, 10>>, <<62, 32, 42, 42, 102, 10>>, <<62, 32, 42, 10>>, <<62, 32, 95, 97, 10>>, <<62, 32, 95, 32, 98, 10>>, <<45, 32, 97, 32, 42, 98, 10>>, <<45, 32, 99, 42, 32, 100, 10>>, <<45, 32, 42, 101, 42, 10>>, <<45, 32, 97, 32, 32, 10>>, <<45, 32, 97, 92, 10>>, <<45, 32, 32, 98, 10>>, <<45, 32, 97, 32, 10>>, <<45, 32, 42, 42, 102, 10>>, <<45, 32, 42, 10>>, <<45, 32, 95, 97, 10>>, <<45, 32, 95, 32, 98, 10>>, <<32, 32, 97, 32, 42, 98, 10>>, <<32, 32, 99, 42, 32, 100, 10>>, <<32, 32, 42, 101, 42, 10>>, <<32, 32, 97, 32, 32, 10>>, <<32, 32, 97, 92, 10>>, <<32, 32, 32, 98, 10>>, <<32, 32, 97, 32, 10>>, <<32, 32, 42, 42, 102, 10>>, <<32, 32, 42, 10>>, <<32, 32, 95, 97, 10>>, <<32, 32, 95, 32, 98, 10>>, <<62, 97, 32, 42, 98, 10>>, <<62, 99, 42, 32, 100, 10>>, <<62, 42, 101, 42, 10>>, <<62, 97, 32, 32, 10>>, <<62, 97, 92, 10>>, <<62, 32, 98, 10>>, <<62, 97, 32, 10>>, <<62, 42, 42, 102, 10>>, <<62, 42, 10>>, <<62, 95, 97, 10>>, <<62, 95, 32, 98, 10>>, <<10>>, <<62, 10>>, <<99, 42>> }
-            [] name = "fullB" -> { <<91, 120, 93, 40, 47, 117, 10>>, <<34, 116, 34, 41, 10>>, <<91, 97, 93, 58, 32, 47, 117, 10>>, <<91, 97, 93, 10>>, <<91, 120, 93, 91, 97, 10>>, <<93, 10>>, <<96, 99, 10>>, <<100, 96, 32, 101, 10>>, <<60, 98, 10>>, <<101, 61, 34, 102, 34, 62, 10>>, <<91, 98, 93, 58, 32, 60, 118, 32, 119, 62, 32, 39, 116, 39, 10>>, <<33, 91, 105, 93, 91, 98, 93, 10>>, <<62, 32, 91, 120, 93, 40, 47, 117, 10>>, <<62, 32, 34, 116, 34, 41, 10>>, <<62, 32, 91, 97, 93, 58, 32, 47, 117, 10>>, <<62, 32, 91, 97, 93, 10>>, <<62, 32, 91, 120, 93, 91, 97, 10>>, <<62, 32, 93, 10>>, <<62, 32, 96, 99, 10>>, <<62, 32, 100, 96, 32, 101, 10>>, <<62, 32, 60, 98, 10>>, <<62, 32, 101, 61, 34, 102, 34, 62, 10>>, <<62, 32, 91, 98, 93, 58, 32, 60, 118, 32, 119, 62, 32, 39, 116, 39, 10>>, <<62, 32, 33, 91, 105, 93, 91, 98, 93, 10>>, <<45, 32, 91, 120, 93, 40, 47, 117, 10>>, <<45, 32, 34, 116, 34, 41, 10>>, <<45, 32, 91, 97, 93, 58, 32, 47, 117, 10>>, <<45, 32, 91, 97, 93, 10>>, <<45, 32, 91, 120, 93, 91, 97, 10>>, <<45, 32, 93, 10>>, <<45, 32, 96, 99, 10>>, <<45, 32, 100, 96, 32, 101, 10>>, <<45, 32, 60, 98, 10>>, <<45, 32, 101, 61, 34, 102, 34, 62, 10>>, <<45, 32, 91, 98, 93, 58, 32, 60, 118, 32, 119, 62, 32, 39, 116, 39, 10>>, <<45, 32, 33, 91, 105, 93, 91, 98, 93, 10>>, <<32, 32, 91, 120, 93, 40, 47, 117, 10>>, <<32, 32, 34, 116, 34, 41, 10>>, <<32, 32, 91, 97, 93, 58, 32, 47, 117, 10>>, <<32, 32, 91, 97, 93, 10>>, <<32, 32, 91, 120, 93, 91, 97, 10>>, <<32, 32, 93, 10>>, <<32, 32, 96, 99, 10>>, <<32, 32, 100, 96, 32, 101, 10>>, <<32, 32, 60, 98, 10>>, <<32, 32, 101, 61, 34, 102, 34, 62, 10>>, <<32, 32, 91, 98, 93, 58, 32, 60, 118, 32, 119, 62, 32, 39, 116, 39, 10>>, <<32, 32, 33, 91, 105, 93, 91, 98, 93, 10>>, <<10>>, <<91, 97, 93>> }
+            [] name = "fullB" -> { <<91, 120, 93, 40, 47, 117, 10>>, <<34, 116, 34, 41, 10>>, <<91, 97, 93, 58, 32, 47, 117, 10>>, <<91, 97, 93, 10>>, <<91, 120, 93, 91, 97, 10>>, <<93, 10>>, <<96, 99, 10>>, <<100, 96, 32, 101, 10>>, <<60, 98, 10>>, <<101, 61, 34, 102, 34, 62, 10>>, <<91, 98, 93, 58, 32, 60, 118, 32, 119, 62, 32, 39, 116, 39, 10>>, <<33, 91, 105, 93, 91, 98, 93, 10>>, <<100, 96, 32, 42, 42, 101, 42, 42, 32, 102, 10>>, <<34, 116, 34, 41, 32, 95, 95, 103, 95, 95, 10>>, <<62, 32, 91, 120, 93, 40, 47, 117, 10>>, <<62, 32, 34, 116, 34, 41, 10>>, <<62, 32, 91, 97, 93, 58, 32, 47, 117, 10>>, <<62, 32, 91, 97, 93, 10>>, <<62, 32, 91, 120, 93, 91, 97, 10>>, <<62, 32, 93, 10>>, <<62, 32, 96, 99, 10>>, <<62, 32, 100, 96, 32, 101, 10>>, <<62, 32, 60, 98, 10>>, <<62, 32, 101, 61, 34, 102, 34, 62, 10>>, <<62, 32, 91, 98, 93, 58, 32, 60, 118, 32, 119, 62, 32, 39, 116, 39, 10>>, <<62, 32, 33, 91, 105, 93, 91, 98, 93, 10>>, <<62, 32, 100, 96, 32, 42, 42, 101, 42, 42, 32, 102, 10>>, <<62, 32, 34, 116, 34, 41, 32, 95, 95, 103, 95, 95, 10>>, <<45, 32, 91, 120, 93, 40, 47, 117, 10>>, <<45, 32, 34, 116, 34, 41, 10>>, <<45, 32, 91, 97, 93, 58, 32, 47, 117, 10>>, <<45, 32, 91, 97, 93, 10>>, <<45, 32, 91, 120, 93, 91, 97, 10>>, <<45, 32, 93, 10>>, <<45, 32, 96, 99, 10>>, <<45, 32, 100, 96, 32, 101, 10>>, <<45, 32, 60, 98, 10>>, <<45, 32, 101, 61, 34, 102, 34, 62, 10>>, <<45, 32, 91, 98, 93, 58, 32, 60, 118, 32, 119, 62, 32, 39, 116, 39, 10>>, <<45, 32, 33, 91, 105, 93, 91, 98, 93, 10>>, <<45, 32, 100, 96, 32, 42, 42, 101, 42, 42, 32, 102, 10>>, <<45, 32, 34, 116, 34, 41, 32, 95, 95, 103, 95, 95, 10>>, <<32, 32, 91, 120, 93, 40, 47, 117, 10>>, <<32, 32, 34, 116, 34, 41, 10>>, <<32, 32, 91, 97, 93, 58, 32, 47, 117, 10>>, <<32, 32, 91, 97, 93, 10>>, <<32, 32, 91, 120, 93, 91, 97, 10>>, <<32, 32, 93, 10>>, <<32, 32, 96, 99, 10>>, <<32, 32, 100, 96, 32, 101, 10>>, <<32, 32, 60, 98, 10>>, <<32, 32, 101, 61, 34, 102, 34, 62, 10>>, <<32, 32, 91, 98, 93, 58, 32, 60, 118, 32, 119, 62, 32, 39, 116, 39, 10>>, <<32, 32, 33, 91, 105, 93, 91, 98, 93, 10>>, <<32, 32, 100, 96, 32, 42, 42, 101, 42, 42, 32, 102, 10>>, <<32, 32, 34, 116, 34, 41, 32, 95, 95, 103, 95, 95, 10>>, <<10>>, <<91, 97, 93>> }
             [] name = "fullC" -> { <<35, 32, 104, 32, 42, 101, 42, 10>>, <<35, 35, 32, 10>>, <<97, 32, 42, 98, 42, 10>>, <<61, 61, 61, 10>>, <<45, 45, 45, 10>>, <<96, 96, 96, 120, 10>>, <<126, 126, 126, 32, 121, 38, 97, 109, 112, 59, 122, 92, 42, 10>>, <<32, 32, 32, 32, 99, 111, 100, 101, 32, 60, 10>>, <<60, 100, 105, 118, 62, 10>>, <<42, 97, 42, 32, 38, 97, 109, 112, 59, 32, 92, 42, 32, 38, 35, 51, 53, 59, 10>>, <<49, 46, 32, 97, 10>>, <<32, 32, 32, 98, 10>>, <<60, 104, 116, 116, 112, 58, 47, 47, 120, 46, 121, 47, 37, 53, 66, 195, 169, 62, 32, 60, 109, 64, 120, 46, 121, 62, 10>>, <<96, 96, 32, 96, 32, 96, 96, 10>>, <<33, 91, 42, 105, 42, 32, 38, 97, 109, 112, 59, 32, 96, 99, 96, 32, 60, 98, 62, 32, 38, 35, 51, 53, 59, 93, 40, 47, 115, 32, 34, 116, 34, 41, 10>>, <<38, 110, 76, 116, 59, 32, 38, 65, 69, 108, 105, 103, 59, 32, 38, 104, 101, 108, 108, 105, 112, 32, 38, 110, 98, 115, 112, 59, 120, 10>>, <<91, 116, 93, 40, 47, 117, 32, 34, 38, 110, 71, 116, 59, 38, 78, 111, 116, 69, 113, 117, 97, 108, 84, 105, 108, 100, 101, 59, 38, 68, 99, 97, 114, 111, 110, 59, 34, 41, 10>>, <<32, 96, 96, 96, 120, 32, 121, 10>>, <<32, 32, 32, 126, 126, 126, 122, 10>>, <<62, 32, 35, 32, 104, 32, 42, 101, 42, 10>>, <<62, 32, 35, 35, 32, 10>>, <<62, 32, 97, 32, 42, 98, 42, 10>>, <<62, 32, 61, 61, 61, 10>>, <<62, 32, 45, 45, 45, 10>>, <<62, 32, 96, 96, 96, 120, 10>>, <<62, 32, 126, 126, 126, 32, 121, 38, 97, 109, 112, 59, 122, 92, 42, 10>>, <<62, 32, 32, 32, 32, 32, 99, 111, 100, 101, 32, 60, 10>>, <<62, 32, 60, 100, 105, 118, 62, 10>>, <<62, 32, 42, 97, 42, 32, 38, 97, 109, 112, 59, 32, 92, 42, 32, 38, 35, 51, 53, 59, 10>>, <<62, 32, 49, 46, 32, 97, 10>>, <<62, 32, 32, 32, 32, 98, 10>>, <<62, 32, 60, 104, 116, 116, 112, 58, 47, 47, 120, 46, 121, 47, 37, 53, 66, 195, 169, 62, 32, 60, 109, 64, 120, 46, 121, 62, 10>>, <<62, 32, 96, 96, 32, 96, 32, 96, 96, 10>>, <<62, 32, 33, 91, 42, 105, 42, 32, 38, 97, 109, 112, 59, 32, 96, 99, 96, 32, 60, 98, 62, 32, 38, 35, 51, 53, 59, 93, 40, 47, 115, 32, 34, 116, 34, 41, 10>>, <<62, 32, 38, 110, 76, 116, 59, 32, 38, 65, 69, 108, 105, 103, 59, 32, 38, 104, 101, 108, 108, 105, 112, 32, 38, 110, 98, 115, 112, 59, 120, 10>>, <<62, 32, 91, 116, 93, 40, 47, 117, 32, 34, 38, 110, 71, 116, 59, 38, 78, 111, 116, 69, 113, 117, 97, 108, 84, 105, 108, 100, 101, 59, 38, 68, 99, 97, 114, 111, 110, 59, 34, 41, 10>>, <<62, 32, 32, 96, 96, 96, 120, 32, 121, 10>>, <<62, 32, 32, 32, 32, 126, 126, 126, 122, 10>>, <<45, 32, 35, 32, 104, 32, 42, 101, 42, 10>>, <<45, 32, 35, 35, 32, 10>>, <<45, 32, 97, 32, 42, 98, 42, 10>>, <<45, 32, 61, 61, 61, 10>>, <<45, 32, 45, 45, 45, 10>>, <<45, 32, 96, 96, 96, 120, 10>>, <<45, 32, 126, 126, 126, 32, 121, 38, 97, 109, 112, 59, 122, 92, 42, 10>>, <<45, 32, 32, 32, 32, 32, 99, 111, 100, 101, 32, 60, 10>>, <<45, 32, 60, 100, 105, 118, 62, 10>>, <<45, 32, 42, 97, 42, 32, 38, 97, 109, 112, 59, 32, 92, 42, 32, 38, 35, 51, 53, 59, 10>>, <<45, 32, 49, 46, 32, 97, 10>>, <<45, 32, 32, 32, 32, 98, 10>>, <<45, 32, 60, 104, 116, 116, 112, 58, 47, 47, 120, 46, 121, 47, 37, 53, 66, 195, 169, 62, 32, 60, 109, 64, 120, 46, 121, 62, 10>>, <<45, 32, 96, 96, 32, 96, 32, 96, 96, 10>>, <<45, 32, 33, 91, 42, 105, 42, 32, 38, 97, 109, 112, 59, 32, 96, 99, 96, 32, 60, 98, 62, 32, 38, 35, 51, 53, 59, 93, 40, 47, 115, 32, 34, 116, 34, 41, 10>>, <<45, 32, 38, 110, 76, 116, 59, 32, 38, 65, 69, 108, 105, 103, 59, 32, 38, 104, 101, 108, 108, 105, 112, 32, 38, 110, 98, 115, 112, 59, 120, 10>>, <<45, 32, 91, 116, 93, 40, 47, 117, 32, 34, 38, 110, 71, 116, 59, 38, 78, 111, 116, 69, 113, 117, 97, 108, 84, 105, 108, 100, 101, 59, 38, 68, 99, 97, 114, 111, 110, 59, 34, 41, 10>>, <<45, 32, 32, 96, 96, 96, 120, 32, 121, 10>>, <<45, 32, 32, 32, 32, 126, 126, 126, 122, 10>>, <<10>>, <<96, 96, 96, 120>>, <<32, 32, 32, 32, 99>>, <<62, 32, 126, 126, 126>>, <<99, 32, 96, 100>> }
             [] name = "fullE" -> { <<97, 32, 42, 98, 10>>, <<99, 42, 10>>, <<61, 61, 61, 10>>, <<45, 45, 45, 10>>, <<96, 96, 96, 10>>, <<91, 120, 93, 40, 47, 117, 10>>, <<41, 10>>, <<35, 32, 104, 10>>, <<49, 46, 32, 105, 10>>, <<45, 32, 106, 10>>, <<62, 32, 113, 10>>, <<32, 32, 32, 107, 10>>, <<32, 32, 32, 32, 109, 10>>, <<62, 32, 97, 32, 42, 98, 10>>, <<62, 32, 99, 42, 10>>, <<62, 32, 61, 61, 61, 10>>, <<62, 32, 45, 45, 45, 10>>, <<62, 32, 96, 96, 96, 10>>, <<62, 32, 91, 120, 93, 40, 47, 117, 10>>, <<62, 32, 41, 10>>, <<62, 32, 35, 32, 104, 10>>, <<62, 32, 49, 46, 32, 105, 10>>, <<62, 32, 45, 32, 106, 10>>, <<62, 32, 62, 32, 113, 10>>, <<62, 32, 32, 32, 32, 107, 10>>, <<62, 32, 32, 32, 32, 32, 109, 10>>, <<45, 32, 97, 32, 42, 98, 10>>, <<45, 32, 99, 42, 10>>, <<45, 32, 61, 61, 61, 10>>, <<45, 32, 45, 45, 45, 10>>, <<45, 32, 96, 96, 96, 10>>, <<45, 32, 91, 120, 93, 40, 47, 117, 10>>, <<45, 32, 41, 10>>, <<45, 32, 35, 32, 104, 10>>, <<45, 32, 49, 46, 32, 105, 10>>, <<45, 32, 45, 32, 106, 10>>, <<45, 32, 62, 32, 113, 10>>, <<45, 32, 32, 32, 32, 107, 10>>, <<45, 32, 32, 32, 32, 32, 109, 10>>, <<49, 46, 32, 97, 32, 42, 98, 10>>, <<49, 46, 32, 99, 42, 10>>, <<49, 46, 32, 61, 61, 61, 10>>, <<49, 46, 32, 45, 45, 45, 10>>, <<49, 46, 32, 96, 96, 96, 10>>, <<49, 46, 32, 91, 120, 93, 40, 47, 117, 10>>, <<49, 46, 32, 41, 10>>, <<49, 46, 32, 35, 32, 104, 10>>, <<49, 46, 32, 49, 46, 32, 105, 10>>, <<49, 46, 32, 45, 32, 106, 10>>, <<49, 46, 32, 62, 32, 113, 10>>, <<49, 46, 32, 32, 32, 32, 107, 10>>, <<49, 46, 32, 32, 32, 32, 32, 109, 10>>, <<32, 32, 32, 97, 32, 42, 98, 10>>, <<32, 32, 32, 99, 42, 10>>, <<32, 32, 32, 61, 61, 61, 10>>, <<32, 32, 32, 45, 45, 45, 10>>, <<32, 32, 32, 96, 96, 96, 10>>, <<32, 32, 32, 91, 120, 93, 40, 47, 117, 10>>, <<32, 32, 32, 41, 10>>, <<32, 32, 32, 35, 32, 104, 10>>, <<32, 32, 32, 49, 46, 32, 105, 10>>, <<32, 32, 32, 45, 32, 106, 10>>, <<32, 32, 32, 62, 32, 113, 10>>, <<32, 32, 32, 32, 32, 32, 107, 10>>, <<32, 32, 32, 32, 32, 32, 32, 109, 10>>, <<62, 32, 45, 32, 97, 32, 42, 98, 10>>, <<62, 32, 45, 32, 99, 42, 10>>, <<62, 32, 45, 32, 61, 61, 61, 10>>, <<62, 32, 45, 32, 45, 45, 45, 10>>, <<62, 32, 45, 32, 96, 96, 96, 10>>, <<62, 32, 45, 32, 91, 120, 93, 40, 47, 117, 10>>, <<62, 32, 45, 32, 41, 10>>, <<62, 32, 45, 32, 35, 32, 104, 10>>, <<62, 32, 45, 32, 49, 46, 32, 105, 10>>, <<62, 32, 45, 32, 45, 32, 106, 10>>, <<62, 32, 45, 32, 62, 32, 113, 10>>, <<62, 32, 45, 32, 32, 32, 32, 107, 10>>, <<62, 32, 45, 32, 32, 32, 32, 32, 109, 10>>, <<32, 32, 62, 32, 97, 32, 42, 98, 10>>, <<32, 32, 62, 32, 99, 42, 10>>, <<32, 32, 62, 32, 61, 61, 61, 10>>, <<32, 32, 62, 32, 45, 45, 45, 10>>, <<32, 32, 62, 32, 96, 96, 96, 10>>, <<32, 32, 62, 32, 91, 120, 93, 40, 47, 117, 10>>, <<32, 32, 62, 32, 41, 10>>, <<32, 32, 62, 32, 35, 32, 104, 10>>, <<32, 32, 62, 32, 49, 46, 32, 105, 10>>, <<32, 32, 62, 32, 45, 32, 106, 10>>, <<32, 32, 62, 32, 62, 32, 113, 10>>, <<32, 32, 62, 32, 32, 32, 32, 107, 10>>, <<32, 32, 62, 32, 32, 32, 32, 32, 109, 10>>, <<10>>, <<62, 10>> }
             [] name = "fullD" -> { <<97, 32, 42, 98, 10>>, <<99, 42, 10>>, <<96, 99, 10>>, <<100, 96, 10>>, <<91, 120, 93, 40, 47, 117, 10>>, <<39, 116, 39, 41, 10>>, <<97, 92, 10>>, <<98, 32, 32, 10>>, <<91, 120, 93, 91, 97, 10>>, <<98, 93, 10>>, <<91, 97, 10>>, <<98, 93, 58, 32, 47, 117, 10>>, <<62, 9, 97, 32, 42, 98, 10>>, <<62, 9, 99, 42, 10>>, <<62, 9, 96, 99, 10>>, <<62, 9, 100, 96, 10>>, <<62, 9, 91, 120, 93, 40, 47, 117, 10>>, <<62, 9, 39, 116, 39, 41, 10>>, <<62, 9, 97, 92, 10>>, <<62, 9, 98, 32, 32, 10>>, <<62, 9, 91, 120, 93, 91, 97, 10>>, <<62, 9, 98, 93, 10>>, <<62, 9, 91, 97, 10>>, <<62, 9, 98, 93, 58, 32, 47, 117, 10>>, <<45, 9, 97, 32, 42, 98, 10>>, <<45, 9, 99, 42, 10>>, <<45, 9, 96, 99, 10>>, <<45, 9, 100, 96, 10>>, <<45, 9, 91, 120, 93, 40, 47, 117, 10>>, <<45, 9, 39, 116, 39, 41, 10>>, <<45, 9, 97, 92, 10>>, <<45, 9, 98, 32, 32, 10>>, <<45, 9, 91, 120, 93, 91, 97, 10>>, <<45, 9, 98, 93, 10>>, <<45, 9, 91, 97, 10>>, <<45, 9, 98, 93, 58, 32, 47, 117, 10>>, <<9, 97, 32, 42, 98, 10>>, <<9, 99, 42, 10>>, <<9, 96, 99, 10>>, <<9, 100, 96, 10>>, <<9, 91, 120, 93, 40, 47, 117, 10>>, <<9, 39, 116, 39, 41, 10>>, <<9, 97, 92, 10>>, <<9, 98, 32, 32, 10>>, <<9, 91, 120, 93, 91, 97, 10>>, <<9, 98, 93, 10>>, <<9, 91, 97, 10>>, <<9, 98, 93, 58, 32, 47, 117, 10>>, <<32, 9, 97, 32, 42, 98, 10>>, <<32, 9, 99, 42, 10>>, <<32, 9, 96, 99, 10>>, <<32, 9, 100, 96, 10>>, <<32, 9, 91, 120, 93, 40, 47, 117, 10>>, <<32, 9, 39, 116, 39, 41, 10>>, <<32, 9, 97, 92, 10>>, <<32, 9, 98, 32, 32, 10>>, <<32, 9, 91, 120, 93, 91, 97, 10>>, <<32, 9, 98, 93, 10>>, <<32, 9, 91, 97, 10>>, <<32, 9, 98, 93, 58, 32, 47, 117, 10>>, <<62, 32, 97, 32, 42, 98, 10>>, <<62, 32, 99, 42, 10>>, <<62, 32, 96, 99, 10>>, <<62, 32, 100, 96, 10>>, <<62, 32, 91, 120, 93, 40, 47, 117, 10>>, <<62, 32, 39, 116, 39, 41, 10>>, <<62, 32, 97, 92, 10>>, <<62, 32, 98, 32, 32, 10>>, <<62, 32, 91, 120, 93, 91, 97, 10>>, <<62, 32, 98, 93, 10>>, <<62, 32, 91, 97, 10>>, <<62, 32, 98, 93, 58, 32, 47, 117, 10>>, <<10>> }
